@@ -8,8 +8,8 @@ odml = C.import_odml()
 from odml.tools.converters.version_converter import VersionConverter
 from odml.tools.xmlparser import XMLReader
 
-TREE = {"s1": "d1", "s2": "d1", "s3": "s1", "p1": "s1", "p2": "s1", "p5": "s1", "p3": "s2", "p4": "s3"}
-ORDER = ["s1", "s2", "s3", "p1", "p2", "p5", "p3", "p4"]
+TREE = {"s1": "d1", "s2": "d1", "s3": "s1", "s4": "s2", "p1": "s1", "p2": "s1", "p5": "s1", "p3": "s2", "p4": "s3"}
+ORDER = ["s1", "s2", "s3", "s4", "p1", "p2", "p5", "p3", "p4"]
 IDS = {h: str(uuid.uuid5(uuid.NAMESPACE_DNS, h)) for h in ["d1"] + ORDER}
 ATTR10 = {"unit": "unit", "dtype": "type", "uncertainty": "uncertainty", "filename": "filename", "definition": "definition", "reference": "reference"}
 RESATTR = {"unit": "unit", "dtype": "dtype", "uncertainty": "uncertainty", "filename": "value_origin", "definition": "definition", "reference": "reference"}
@@ -261,6 +261,10 @@ def replay(g):
                     text = open(outp).read()
                 else:
                     text = vc.convert(fmt)
+                    log1 = list(vc.conversion_log)
+                    # the same converter object asked again (convert, then str / write_to_file, is one object converting twice)
+                    vc.convert(fmt)
+                    log2 = list(vc.conversion_log)
                     # "the source is never modified": a second conversion of the same source object gives the same result
                     again = VersionConverter(source).convert(fmt)
                     if re.sub(r"[0-9a-f]{8}-[0-9a-f]{4}-[0-9a-f]{4}-[0-9a-f]{4}-[0-9a-f]{12}", "ID", again) != \
@@ -270,6 +274,10 @@ def replay(g):
                 rec["srcsame"] = rec["srcsame"] and hashlib.sha1(open(path, "rb").read()).hexdigest() == before and \
                     (entry != "stringio" or source.getvalue() == xml)
                 rec["logged"] = log_facts(g, vc.conversion_log)
+                if entry != "write_to_file":
+                    # an entry counts only if every conversion of this converter recorded it
+                    l1, l2 = log_facts(g, log1), log_facts(g, log2)
+                    rec["logged"] = {h: {k: (l1[h][k] and l2[h][k]) for k in l1[h]} for h in l1}
                 try:
                     rd = XMLReader(ignore_errors=False, show_warnings=False)
                     doc = rd.from_file(outp) if entry == "write_to_file" else rd.from_string(text)
